@@ -310,11 +310,12 @@ def _keep_sample(dirname, module, tag, events, bad=(), per_type=6):
     os.makedirs(dirname, exist_ok=True)
     rnd = random.Random(7)
     by = {}
-    stateful = any(e.get("ev") == "reset" for e in events)
+    RESETS = ("reset", "life_reset")
+    stateful = any(e.get("ev") in RESETS for e in events)
     if stateful:        # groups: a reset event and everything up to the next one
         groups, cur = [], []
         for e in events:
-            if e.get("ev") == "reset" and cur:
+            if e.get("ev") in RESETS and cur:
                 groups.append(cur)
                 cur = []
             cur.append(e)
@@ -326,7 +327,12 @@ def _keep_sample(dirname, module, tag, events, bad=(), per_type=6):
     for g in groups:
         ok = not any((pos + k) in bad for k in range(len(g)))
         pos += len(g)
-        if ok:
+        if ok and g[0].get("ev") == "life_reset":
+            # a history: every prefix is a group of its own, filed under the call it ends with
+            for k in range(1, len(g)):
+                if g[k].get("judge", True):
+                    by.setdefault("life:" + g[k]["x"]["act"], []).append(g[:k + 1])
+        elif ok:
             by.setdefault(g[-1].get("ev"), []).append(g)
     with open(os.path.join(dirname, "%s.%s.ndjson" % (module, tag)), "w") as f:
         for ev, gs in sorted(by.items(), key=lambda x: str(x[0])):
